@@ -327,10 +327,20 @@ fn check_shown_positions(text: &str, planted: &Planted) -> Result<(), (String, S
     }
     // language server
     let uri = format!("file://{}", p);
-    let run = lsp_run(&[lsp_initialize(0), lsp_initialized(), lsp_did_open(&uri, 1, text), lsp_shutdown(1), lsp_exit()]);
+    // the text arrives either at once or as the last of several versions of the document (first a
+    // text in which everything stands elsewhere): the positions are those of the CURRENT text
+    let earlier = format!("(* earlier version *)\n\n{}", text.replacen(&planted.marker.clone().unwrap_or_default(), "zz_other_name", 1));
+    let msgs = match crate::tape::fnv(text.as_bytes()) % 3 {
+        0 => vec![lsp_initialize(0), lsp_initialized(), lsp_did_open(&uri, 1, text), lsp_shutdown(1), lsp_exit()],
+        1 => vec![lsp_initialize(0), lsp_initialized(), lsp_did_open(&uri, 1, &earlier), lsp_did_change(&uri, 2, &[text]), lsp_shutdown(1), lsp_exit()],
+        _ => vec![lsp_initialize(0), lsp_initialized(), lsp_did_open(&uri, 1, text), lsp_did_change(&uri, 2, &[&earlier]), lsp_did_change(&uri, 3, &[text]), lsp_shutdown(1), lsp_exit()],
+    };
+    let run = lsp_run(&msgs);
     if !run.timed_out {
-        for f in &run.frames {
-            if f["method"] == "textDocument/publishDiagnostics" {
+        // (the publication for the last notification is the one about the current text)
+        let last = run.frames.iter().rposition(|f| f["method"] == "textDocument/publishDiagnostics");
+        for (fi, f) in run.frames.iter().enumerate() {
+            if Some(fi) == last && f["method"] == "textDocument/publishDiagnostics" {
                 let shown: Vec<(u64, u64)> = f["params"]["diagnostics"]
                     .as_array()
                     .cloned()
